@@ -442,6 +442,11 @@ class Coder(object):
                 state.most_recent_bitmap_is_for_reuse = False
                 state.bitmap_definition_state = BITMAP_WAITING_FOR_BIT
                 state.n_031031 = 0
+                if descriptor.id == 31031:
+                    # The bitmap is given as an explicit list of 031031 (no
+                    # replication): this descriptor is already its first bit.
+                    state.bitmap_definition_state = BITMAP_BIT_COUNTING
+                    state.n_031031 = 1
 
         elif state.bitmap_definition_state == BITMAP_WAITING_FOR_BIT:
             if descriptor.id == 31031:
